@@ -33,7 +33,13 @@ pub fn py_norm(opt: Option<i32>, dft: i64, len: i64) -> i64 {
 }
 
 pub fn real_substring(start: Option<i32>, end: Option<i32>, through_node: bool) -> Option<String> {
-  let src = TEXT;
+  real_substring_of(TEXT, start, end, through_node)
+}
+
+pub const TEXT2: &str = "a\u{e9}";
+pub const OFF2: [usize; 3] = [0, 1, 3];
+
+pub fn real_substring_of(src: &'static str, start: Option<i32>, end: Option<i32>, through_node: bool) -> Option<String> {
   let g = mk_grep(src, single_node(src.as_bytes(), 0, src.len() as u32));
   let t = substring("$A", start, end).parse(&HL('$')).ok().unwrap();
   let mut env = MetaVarEnv::new();
@@ -78,6 +84,34 @@ pub fn check(start: Option<i32>, end: Option<i32>, through_node: bool) -> bool {
   ok
 }
 
+/// the same check on the 2-character / 3-byte text `aé` (small enough to be decided)
+pub fn check2(start: Option<i32>, end: Option<i32>, through_node: bool) -> bool {
+  let lo = py_norm(start, 0, 2);
+  let hi = py_norm(end, 2, 2);
+  let got = match real_substring_of(TEXT2, start, end, through_node) {
+    Some(g) => g,
+    None => return false,
+  };
+  let gb = got.as_bytes();
+  let ok = if lo >= hi {
+    gb.is_empty()
+  } else {
+    let (a, b) = (OFF2[lo as usize], OFF2[hi as usize]);
+    let want = &TEXT2.as_bytes()[a..b];
+    let mut same = gb.len() == want.len();
+    let mut i = 0;
+    while i < 3 {
+      if same && i < want.len() && gb[i] != want[i] {
+        same = false;
+      }
+      i += 1;
+    }
+    same
+  };
+  std::mem::forget(got);
+  ok
+}
+
 #[cfg(test)]
 mod tests {
   use super::*;
@@ -96,6 +130,12 @@ mod tests {
         assert!(check(None, Some(s), through_node));
       }
       assert!(check(Some(i32::MIN), Some(i32::MAX), through_node));
+      for s in -4..5 {
+        for e in -4..5 {
+          assert!(check2(Some(s), Some(e), through_node), "{s} {e}");
+        }
+        assert!(check2(Some(s), None, through_node) && check2(None, Some(s), through_node));
+      }
     }
   }
 }
@@ -113,6 +153,31 @@ mod proofs {
     kani::cover!(start.is_none() && end.is_some() && e == -1);
     kani::cover!(start.is_some() && end.is_some() && s > e && s < 4 && e >= 0);
     assert!(check(start, end, through_node), "substring == Python slice on characters");
+  }
+
+  fn body2(through_node: bool) {
+    let s: i32 = kani::any();
+    let e: i32 = kani::any();
+    let start = if kani::any() { Some(s) } else { None };
+    let end = if kani::any() { Some(e) } else { None };
+    kani::cover!(start.is_some() && end.is_some() && s == 1 && e == -2);
+    kani::cover!(start.is_none() && end.is_some() && e == -1);
+    kani::cover!(start.is_some() && end.is_some() && s == 0 && e == 2);
+    assert!(check2(start, end, through_node), "substring == Python slice on characters");
+  }
+
+  #[kani::proof]
+  #[kani::unwind(6)]
+  #[kani::stub(regex::Regex::new, crate::stub_regex_new)]
+  fn c20_substring_2ch_transformed() {
+    body2(false);
+  }
+
+  #[kani::proof]
+  #[kani::unwind(6)]
+  #[kani::stub(regex::Regex::new, crate::stub_regex_new)]
+  fn c20_substring_2ch_node() {
+    body2(true);
   }
 
   /// one index symbolic (full i32), the other absent
